@@ -6,7 +6,7 @@ from . import seqlib as S
 PROPERTY = "C05"
 DRIVER = "TraitsVerif/Driver/Seq.lean"
 PROPS_MODULES = ["TraitsVerif.Props.C05"]
-TRANSLATORS = ["mutators", "pyl", "ctorcopy"]
+TRANSLATORS = ["mutators", "pyl", "ctorcopy", "ctorprog"]
 RULE = ("exhaustive single operations (every mutator x every int index / slice bound in -5..5|None x step in "
         "None,+-1,+-2,+-3 x replacement lengths 0..len+1) on lists of length 0..3 (quick) / wider (thorough), "
         "the same stream against the builtin list (validates the Py.List model), plus seeded random histories "
